@@ -111,7 +111,9 @@ class AsyncSimTransport(httpx.AsyncBaseTransport):
         srv = self.server
         _check_scheme(request)
         _check_host(srv, request)
-        body = await request.aread()
+        # like a real transport (httpcore), the body is taken from the request's stream: the request object is NOT marked as
+        # read, so request.content stays unavailable for streamed (multipart) bodies afterwards
+        body = b"".join([chunk async for chunk in request.stream]) if not hasattr(request, "_content") else request.content
         await asyncio.sleep(srv.latency("req"))
         cap = Captured(srv.next_seq(), request, body)
         cap.verify = self.verify
@@ -146,7 +148,7 @@ class SyncSimTransport(httpx.BaseTransport):
         srv = self.server
         _check_scheme(request)
         _check_host(srv, request)
-        body = request.read()
+        body = b"".join(request.stream) if not hasattr(request, "_content") else request.content       # (see the async transport)
         self.yield_point("net-req")
         cap = Captured(srv.next_seq(), request, body)
         cap.verify = self.verify
